@@ -312,6 +312,9 @@ pub const FIXED_POSIX: &[&str] = &[
     "EET-2EEST,M3.5.0/3,M10.5.0/4",
     "AAA0:00:01BBB-0:00:01,M1.1.0/0,M12.5.6/167:59:59",
     "ABC24:59:59DEF22:59:59,J60/-167:59:59,J59/167",
+    // empty DST period: DST ends at the very instant it starts (what zic writes for such a rule pair)
+    "XST3XDT,J100,J100/3",
+    "XST3XDT2,J100/2:00,J100/3:00",
 ];
 
 /// Instants of interest for a zone: around every explicit transition and the
